@@ -1,30 +1,34 @@
-"""C20 - particle picking finds planted particles regardless of chunking (DESIGN 5, C20)."""
+"""C20 - particle picking finds planted particles regardless of chunking (DESIGN 5, C20).
+
+All structural rules are stated as AST patterns matched modulo local-variable names and introduced temporaries (sa.match), or
+as symbolic forms computed by the interpreter; no rule depends on the spelling of a local variable."""
 from __future__ import annotations
 
 import ast
 from fractions import Fraction
 
-from ..absint import TOP, Const, ExtRef, FuncRef, Interp, Tup
-from ..cfg import backward_slice_names
-from ..domains.affine import A, mkA
-from ..domains.arrays import Arr, ArrayDomain, Vec3
-from ..domains.frames import FramesDomain, Rot
+from ..absint import TOP, DictV, ExtRef, FuncRef, Interp, Tup
+from ..domains.affine import A, Poly, mkA
+from ..domains.arrays import Arr, ArrayDomain
 from ..domains.units import PX, U_NM, U_S, UnitsDomain
-from ..repo import calls_in, dotted, norm_src, walk_no_nested
+from ..match import Matcher, src
+from ..repo import calls_in, dotted, norm_src
 from .common import kwarg, need_funcs
 from . import C05
 
 PB = "acryo/pick/_base.py::"
 PCC = "acryo/pick/_concrete.py::"
-ANCHORS = [PB + "BasePickerModel.pick_molecules", PB + "BasePickerModel._pick_in_chunk_wrapped", PB + "BaseTemplateMatcher.get_params_and_depth",
-           PB + "BaseTemplateMatcher._index_to_quaternions", PB + "MoleculesBox.to_molecules", PCC + "ZNCCTemplateMatcher.pick_molecules",
-           PCC + "ZNCCTemplateMatcher.pick_in_chunk", PCC + "LoGPicker.pick_in_chunk", PCC + "LoGPicker.get_params_and_depth", PCC + "DoGPicker.pick_in_chunk",
-           PCC + "DoGPicker.get_params_and_depth", PCC + "find_maxima", PCC + "maximum_filter", PCC + "simple_pick"]
+ANCHORS = [PB + "BasePickerModel.pick_molecules", PB + "BasePickerModel._pick_in_chunk_wrapped", PB + "BasePickerModel._depth_margin",
+           PB + "BaseTemplateMatcher.get_params_and_depth", PB + "BaseTemplateMatcher._index_to_quaternions", PB + "MoleculesBox.to_molecules",
+           PCC + "ZNCCTemplateMatcher.pick_molecules", PCC + "ZNCCTemplateMatcher.pick_in_chunk", PCC + "ZNCCTemplateMatcher._depth_margin",
+           PCC + "LoGPicker.pick_in_chunk", PCC + "LoGPicker.get_params_and_depth", PCC + "DoGPicker.pick_in_chunk", PCC + "DoGPicker.get_params_and_depth",
+           PCC + "find_maxima", PCC + "maximum_filter", PCC + "simple_pick"]
+SIGMA_FIELDS = ("_sigma", "_sigma_low", "_sigma_high")
 
 
 class PickUnits(UnitsDomain):
     def seed_field(self, interp, obj, name, node):
-        if name in ("_sigma", "_sigma_low", "_sigma_high"):
+        if name in SIGMA_FIELDS:
             return U_NM
         return super().seed_field(interp, obj, name, node)
 
@@ -34,44 +38,113 @@ class PickUnits(UnitsDomain):
         return super().seed_param(interp, fn, arg)
 
 
+class PickForms(ArrayDomain):
+    """sigma fields are seeded as (width in pixels) * scale so that sigma / scale is a plain symbol."""
+
+    def seed_field(self, interp, obj, name, node):
+        if name in SIGMA_FIELDS:
+            s = self.sym("px" + name)
+            self.positive.add("px" + name)
+            return A(s.num * self.sym("scale").num)
+        return super().seed_field(interp, obj, name, node)
+
+
+def _strip_asarray(e):
+    while isinstance(e, ast.Call) and (dotted(e.func) or "") in ("np.asarray", "np.array", "numpy.asarray", "numpy.array", "tuple", "list") and e.args:
+        e = e.args[0]
+    return e
+
+
+def _class_invariants(model, dom, cls_anchor):
+    """Facts p >= 0 between the pixel widths that the constructor enforces (``if a >= b: raise`` with a, b stored in sigma fields)."""
+    try:
+        ini = model.func(cls_anchor + ".__init__")
+    except Exception:
+        return []
+    M = Matcher(ini)
+    out = []
+    for pat, strict in (("if $a >= $b:\n    raise $$e", True), ("if $a > $b:\n    raise $$e", False)):
+        for _, b in M.find(pat):
+            fa = [bb for _, bb in M.find("self.$$_ = $a", b)]
+            stores = {}
+            for st in ast.walk(ini.node):
+                if isinstance(st, ast.Assign) and isinstance(st.targets[0], ast.Attribute) and isinstance(st.value, ast.Name):
+                    stores[st.value.id] = st.targets[0].attr
+            a, c = src(b["a"][1]), src(b["b"][1])
+            if stores.get(a) in SIGMA_FIELDS and stores.get(c) in SIGMA_FIELDS:
+                # on the normal path a < b (or a <= b): px_b - px_a >= 0
+                out.append(dom.sym("px" + stores[c]).poly() - dom.sym("px" + stores[a]).poly())
+    return out
+
+
 def units_clause(model, rep, funcs):
-    for a, keys in ((PCC + "LoGPicker.get_params_and_depth", ["sigma"]), (PCC + "DoGPicker.get_params_and_depth", ["sigma_low", "sigma_high"])):
+    for a in (PCC + "LoGPicker.get_params_and_depth", PCC + "DoGPicker.get_params_and_depth"):
         f = funcs.get(a)
         if f is None:
             continue
         dom = PickUnits(model)
-        it = Interp(model, dom, depth=0)
-        out = it.run(f)
+        out = Interp(model, dom, depth=0).run(f)
         rep.instance("U.pick", f.loc())
         ok = None
         det = f"{out!r}"[:200]
-        if isinstance(out, Tup) and len(out.items) == 2:
-            from ..absint import DictV
-            d = out.items[0]
-            if isinstance(d, DictV):
-                ok = True
-                for k in keys:
-                    u = dom._lift(d.items.get(k, TOP))
-                    if u is None or not u.fits(frozenset({PX})):
-                        ok = False
-                        det = f"parameter `{k}` handed to pick_in_chunk is {u!r}, pixels required (sigma / scale)"
+        if isinstance(out, Tup) and len(out.items) == 2 and isinstance(out.items[0], DictV) and out.items[0].items:
+            ok = True
+            for k, v in out.items[0].items.items():
+                u = dom._lift(v)
+                if u is None:
+                    ok, det = None, f"parameter `{k}` has no unit"
+                    break
+                if not u.fits(frozenset({PX})):
+                    ok = False
+                    det = f"parameter `{k}` handed to pick_in_chunk is {u!r}, pixels required (sigma / scale)"
         rep.ob("U", a, "filter widths are converted from nm to pixels (sigma / scale) before they reach scipy.ndimage", ok, det, node=f.node, fn=f, clause="units",
                stmt=f"def get_params_and_depth units ({a})")
     f = funcs.get(PCC + "ZNCCTemplateMatcher.pick_molecules")
     if f is not None:
         c = [x for x in calls_in(f) if isinstance(x.func, ast.Attribute) and x.func.attr == "pick_molecules"]
         rep.instance("U.pick", f.loc())
-        md = kwarg(c[0], "min_distance") if c else None
-        ok = md is not None and norm_src(md) == "min_distance / scale"
-        rep.ob("U", f.anchor, "min_distance is converted to pixels (min_distance / scale) for the per-chunk maxima search", ok, norm_src(md) if md is not None else "",
+        ok, det = None, "no call of the base pick_molecules"
+        if c:
+            dom = PickUnits(model, seeds={(f.anchor, "min_distance"): U_NM})
+            it = Interp(model, dom, depth=0)
+            seen = []
+
+            def on_call(interp, fn, node, callee, args, kwargs, env):
+                if node is c[0]:
+                    seen.append(kwargs.get("min_distance"))
+
+            it.on_call.append(on_call)
+            it.run(f)
+            if seen and seen[0] is not None:
+                u = dom._lift(seen[0])
+                if u is not None:
+                    ok = u.fits(frozenset({PX}))
+                    det = f"min_distance reaches the per-chunk maxima search as {u!r}"
+        rep.ob("U", f.anchor, "min_distance is converted to pixels (min_distance / scale) for the per-chunk maxima search", ok, det,
                node=f.node, fn=f, clause="units", stmt="ZNCC min_distance")
-    f = funcs.get(PB + "BasePickerModel.pick_molecules")
-    if f is not None:
-        st = [n for n in walk_no_nested(f.node) if isinstance(n, ast.Assign) and norm_src(n.targets[0]) == "mole._pos"]
-        rep.instance("U.pick", f.loc())
-        ok = len(st) == 1 and norm_src(st[0].value).replace(" ", "") in ("(mole._pos-depth)*scale", "(mole._pos-_depth)*scale")
-        rep.ob("U", f.anchor, "picked positions are shifted back by the overlap depth and converted to nm: (pos - depth) * scale", ok,
-               norm_src(st[0].value) if st else "", node=f.node, fn=f, clause="units", stmt="pick_molecules positions")
+
+
+def _maxima_radius_rule(rep, funcs):
+    """maximum_filter(image, radius) looks exactly ceil(radius) pixels around each voxel."""
+    f = funcs.get(PCC + "maximum_filter")
+    if f is None:
+        return False
+    M = Matcher(f)
+    b: dict = {}
+    ok, why = M.all_of(["$r = int(np.ceil(radius))", "$size = 2 * $r + 1", "return ndi.maximum_filter(image, ..., footprint=$$foot)"], b)
+    ok2 = False
+    if ok:
+        # the footprint is a ball of that radius centred in the (2r+1)^3 box
+        ok2 = M.has("($$z - $r) ** 2 + ($$y - $r) ** 2 + ($$x - $r) ** 2 <= radius ** 2", b)
+    rep.instance("S17", f.loc())
+    rep.ob("S17", f.anchor, "the maxima search looks ceil(radius) pixels around each voxel (ball footprint in a (2*ceil(r)+1)^3 box)", bool(ok and ok2), why, node=f.node,
+           fn=f, clause="halo", stmt="maximum_filter radius")
+    g = funcs.get(PCC + "find_maxima")
+    okg = False
+    if g is not None:
+        okg = Matcher(g).has("maximum_filter(img, min_distance)")
+        rep.ob("S17", g.anchor, "find_maxima searches maxima with radius min_distance", okg, "", node=g.node, fn=g, clause="halo", stmt="find_maxima radius")
+    return bool(ok and ok2 and okg)
 
 
 def halo_clause(model, rep, funcs):
@@ -85,6 +158,7 @@ def halo_clause(model, rep, funcs):
         rep.ob("S17", f.anchor, "block-wise picking uses one map_overlap call", None, f"{len(mo)} calls", node=f.node, fn=f, clause="halo", stmt="map_overlap")
         return
     c = mo[0]
+    MF, MG = Matcher(f), Matcher(g)
     trim = kwarg(c, "trim")
     trimmed = trim is None or (isinstance(trim, ast.Constant) and trim.value is True)
     depth = kwarg(c, "depth")
@@ -92,166 +166,252 @@ def halo_clause(model, rep, funcs):
     ok_fn = fn_arg is not None and norm_src(fn_arg) == "self._pick_in_chunk_wrapped"
     rep.ob("S17", f.anchor, "map_overlap maps the chunk wrapper", ok_fn, norm_src(fn_arg) if fn_arg is not None else "", node=c, fn=f, clause="halo",
            stmt="map_overlap target")
+    if depth is None:
+        rep.ob("S17", f.anchor, "map_overlap is given an explicit depth", None, "", node=c, fn=f, clause="halo", stmt="map_overlap depth")
+        return
     # (a) the wrapper receives the very depth given to map_overlap
-    passed = [k for k in c.keywords if k.arg not in (None, "depth", "trim", "boundary", "dtype", "meta") and depth is not None and norm_src(k.value) == norm_src(depth)]
+    passed = [k for k in c.keywords if k.arg not in (None, "depth", "trim", "boundary", "dtype", "meta") and norm_src(k.value) == norm_src(depth)]
     params = g.param_names()
     recv = [k.arg for k in passed if k.arg in params]
     rep.ob("S17", f.anchor, "(a) with trim=False the per-chunk worker is told the overlap depth", bool(recv) or trimmed,
-           f"depth={norm_src(depth) if depth is not None else None}; forwarded as {[k.arg for k in passed]}; worker parameters {params}", node=c, fn=f, clause="halo",
+           f"depth={norm_src(depth)}; forwarded as {[k.arg for k in passed]}; worker parameters {params}", node=c, fn=f, clause="halo",
            stmt="map_overlap depth forwarded")
-    # (b) picks in the halo are discarded: a mask built from d <= pos < size - d for every axis, applied to pos, quats and features
-    src = norm_src(g.node)
-    dname = recv[0] if recv else None
-    loops = [lp for lp in walk_no_nested(g.node) if isinstance(lp, ast.For)]
-    mask_ok = False
-    det = "no per-axis interior test found"
-    masks = set()
+    dpar = recv[0] if recv else "overlap_depth"
+    # (b) picks in the halo are discarded
+    b: dict = {}
+    loops = [f"for $i, (($start, $_), $d) in enumerate(zip($$locs, {dpar})): ...", f"for $i, ($d, ($start, $_)) in enumerate(zip({dpar}, $$locs)): ..."]
+    loop = None
     for lp in loops:
-        for n in ast.walk(lp):
-            if isinstance(n, ast.AugAssign) and isinstance(n.op, ast.BitAnd):
-                t = norm_src(n.value).replace(" ", "")
-                if "<=pos[:,i]" in t and "pos[:,i]<image.shape[i]-" in t:
-                    it = norm_src(lp.iter)
-                    if dname and dname in it:
-                        mask_ok = True
-                        masks.add(norm_src(n.target))
-                        det = f"interior mask `{norm_src(n)[:80]}`"
-    applied = bool(masks) and all(all(f"{x}[{m}]" in src.replace(" ", "") or f"{x})[{m}]" in src.replace(" ", "") for x in ("pos", "quats")) for m in masks)
-    feat_applied = bool(masks) and any(f"[{m}]" in norm_src(n) for m in masks for n in ast.walk(g.node) if isinstance(n, ast.DictComp))
+        r = MG.find(lp, b)
+        if r:
+            loop, b = r[0]
+            break
+    det = ""
+    okb = False
+    if loop is None:
+        det = f"no loop over (chunk location, {dpar}) pairs"
+    else:
+        tests = ["$keep &= ($d <= $pos[:, $i]) & ($pos[:, $i] < image.shape[$i] - $d)", "$keep &= ($pos[:, $i] >= $d) & ($pos[:, $i] < image.shape[$i] - $d)",
+                 "$keep &= ($d <= $pos[:, $i]) & (image.shape[$i] - $d > $pos[:, $i])"]
+        hit = None
+        for t in tests:
+            r = MG.find(t, b, within=loop)
+            if r:
+                hit, b = r[0]
+                break
+        if hit is None:
+            det = "no per-axis interior test `d <= pos[:, i] < size_i - d` in the loop over axes"
+        else:
+            ok1, why = MG.all_of(["$pos, $quats, $feat = self.pick_in_chunk(image, **kwargs)", "$keep = np.ones($pos.shape[0], dtype=np.bool_)",
+                                  "MoleculesBox($pos[$keep], $quats[$keep], $$f)"], b)
+            ok2 = ok1 and (MG.has("{$k: np.asarray($v)[$keep] for $k, $v in $feat.items()}", b) or MG.has("{$k: $v[$keep] for $k, $v in $feat.items()}", b))
+            okb = bool(ok1 and ok2)
+            det = why if not ok1 else ("" if ok2 else "the feature columns are not filtered with the same mask")
     rep.ob("S17", g.anchor, "(b) picks in the overlapped (halo) region are discarded: each chunk keeps only d <= pos < size - d, applied to positions, orientations "
-           "and features alike", (mask_ok and applied and feat_applied) or trimmed, det + f"; applied to pos/quats: {applied}; to features: {feat_applied}", node=g.node,
-           fn=g, clause="halo", stmt="halo filter")
-    # (c) global offset: chunk start in the un-overlapped array (block_info[None]) added to the in-chunk position; the depth is removed once
-    off = [n for n in ast.walk(g.node) if isinstance(n, ast.AugAssign) and isinstance(n.op, ast.Add) and norm_src(n.target).replace(" ", "") == "pos[:,i]"]
-    loc_src = "block_info[None]['array-location']" in src
-    back = [n for n in walk_no_nested(f.node) if isinstance(n, ast.Assign) and norm_src(n.targets[0]) == "mole._pos"]
-    once = (len(off) == 1 and norm_src(off[0].value) == "start" and bool(back) and "- depth" in norm_src(back[0].value)) or \
-           (len(off) == 1 and norm_src(off[0].value).replace(" ", "") in ("start-d",) and bool(back) and "depth" not in norm_src(back[0].value))
-    rep.ob("S17", g.anchor, "(c) global position = position in the overlapped chunk + chunk start in the original image - depth (depth removed exactly once)",
-           loc_src and once, f"offset `{norm_src(off[0]) if off else None}`; location source block_info[None]: {loc_src}; final `{norm_src(back[0].value) if back else None}`",
-           node=g.node, fn=g, clause="halo", stmt="chunk offset")
+           "and features alike", okb or trimmed, det, node=g.node, fn=g, clause="halo", stmt="halo filter")
+    # (c) global offset: chunk start in the un-overlapped array is added once; the depth actually given to dask is removed once
+    okc, detc = False, ""
+    if loop is not None:
+        ldump = ast.dump(MG.expr(b["locs"][1])) if "locs" in b else ""
+        locs_ok = "array-location" in ldump and "Constant(value=None)" in ldump and "block_info" in ldump
+        adds = MG.find("$pos[:, $i] += $$off", b, within=loop)
+        fin = MF.find("$m._pos = ($m._pos - $$back) * scale")
+        fin0 = MF.find("$m._pos = $m._pos * scale")
+        if not locs_ok:
+            detc = "chunk locations are not read from block_info[None]['array-location'] (location in the un-overlapped image)"
+        elif len(adds) != 1:
+            detc = f"{len(adds)} additions of the chunk start to the positions"
+        else:
+            off = src(adds[0][1]["off"][1])
+            if off == src(b["start"][1]) and fin:
+                back = _strip_asarray(MF.expr(fin[0][1]["back"][1]))
+                want = _strip_asarray(MF.expr(depth))
+                okc = ast.dump(back) == ast.dump(want)
+                detc = (f"positions are shifted back by `{src(fin[0][1]['back'][1])}` but the chunks were overlapped by `{norm_src(depth)}`" if not okc else "")
+            elif off.replace(" ", "") == f"{src(b['start'][1])}-{src(b['d'][1])}" and fin0 and not fin:
+                okc = True
+            else:
+                detc = f"offset `{off}`; final shift `{src(fin[0][0]) if fin else (src(fin0[0][0]) if fin0 else None)}`: the overlap depth must be removed exactly once"
+    rep.ob("S17", g.anchor, "(c) global position = position in the overlapped chunk + chunk start in the original image - overlap depth given to dask "
+           "(removed exactly once)", okc, detc, node=g.node, fn=g, clause="halo", stmt="chunk offset")
+    # the margin is added to the depth that goes to dask
+    bm: dict = {}
+    okm, whym = MF.all_of(["$p, $dep = self.get_params_and_depth(scale)", "$margin = self._depth_margin(**kwargs)", "$dep = tuple($x + $margin for $x in $dep)",
+                           "$clip = tuple(int(min($s, $y)) for $s, $y in zip($$img.shape, $dep))"], bm)
+    okm2 = bool(okm) and isinstance(depth, ast.Name) and depth.id == src(bm["clip"][1])
+    rep.ob("S17", f.anchor, "the overlap handed to dask is the picker's depth plus the maxima margin, clipped to the image size", okm2,
+           whym or f"depth given to map_overlap is `{norm_src(depth)}`", node=f.node, fn=f, clause="halo", stmt="depth margin clipped")
     # (d) the overlap covers the support of the per-chunk filter and of the maxima filter
-    for a, need in ((PCC + "LoGPicker.get_params_and_depth", ["sigma_px"]), (PCC + "DoGPicker.get_params_and_depth", ["sigma2_px", "sigma1_px"])):
-        h = funcs.get(a)
-        if h is None:
+    radius_ok = _maxima_radius_rule(rep, funcs)
+    for cls in ("LoGPicker", "DoGPicker"):
+        h = funcs.get(PCC + cls + ".get_params_and_depth")
+        w = funcs.get(PCC + cls + ".pick_in_chunk")
+        if h is None or w is None:
             continue
-        dv = [n for n in walk_no_nested(h.node) if isinstance(n, ast.Assign) and norm_src(n.targets[0]) == "depth"]
         rep.instance("S17", h.loc())
-        ok = None
-        det = ""
-        if dv:
-            dom = ArrayDomain(model, positive_syms=set(need))
-            it = Interp(model, dom, depth=0)
-            env = {n_: dom.sym(n_) for n_ in need}
-            env["np"] = ExtRef("numpy")
-            d = it.eval(dv[0].value, env, h)
-            big = dom.sym(need[0])
-            small = dom.sym(need[-1])
-            # required: depth >= 4*sigma_filter (scipy truncates at 4 sigma) + sigma_maxima (radius of the maximum filter)
-            if isinstance(d, A) and d.is_poly():
-                goal = dom.add(d, dom.neg(dom.add(A(big.num.scale(4)), small)))
-                ok = dom.prove_ge(goal.poly(), ())
-                det = f"depth = {d!r}"
-                if not ok:
-                    ok = False
-                    det += (f": smaller than 4*{need[0]} + {need[-1]} (support of the Gaussian filter truncated at 4 sigma plus the radius of the maximum filter), so "
-                            "values and maxima near chunk borders differ from the un-chunked image")
-        rep.ob("S17", a, "(d) the overlap depth covers the filter support plus the maxima-search radius (interior of each chunk sees what the whole image sees)",
-               ok, det, node=(dv[0] if dv else h.node), fn=h, clause="halo")
+        dom = PickForms(model, positive_syms={"scale"})
+        out = Interp(model, dom, depth=0).run(h)
+        ok, det = None, f"get_params_and_depth evaluates to {out!r}"[:200]
+        if isinstance(out, Tup) and len(out.items) == 2 and isinstance(out.items[0], DictV) and isinstance(out.items[1], A):
+            d = out.items[1]
+            it = Interp(model, dom, depth=2)
+            widths, radii = [], []
+
+            def on_call(interp, fn, node, callee, args, kwargs, env, _w=widths, _r=radii):
+                if isinstance(callee, ExtRef) and callee.name.split(".")[-1] in ("gaussian_laplace", "gaussian_filter") and len(args) >= 2:
+                    _w.append(args[1])
+                if isinstance(callee, FuncRef) and {x.name for x in callee.funcs} & {"find_maxima"} and len(args) >= 2:
+                    _r.append(args[1])
+
+            it.on_call.append(on_call)
+            args = {"image": Arr(C05.syms(dom, "n0", "n1", "n2"))}
+            args.update(out.items[0].items)
+            it.run(w, args=args)
+            if widths and radii and all(isinstance(x, A) and x.is_poly() for x in widths + radii) and d.is_poly():
+                ok = True
+                inv = _class_invariants(model, dom, PCC + cls)
+
+                def covered(wv, rv):
+                    need = dom.add(dom.opaque("int", A(wv.poly().scale(4) + Poly.const(Fraction(1, 2)))), dom.opaque("ceil", rv))
+                    goal = dom.add(d, dom.neg(need))
+                    return bool(goal.is_poly() and dom.prove_ge(goal.poly(), ())), need
+
+                for wv in widths:
+                    for rv in radii:
+                        good, need = covered(wv, rv)
+                        if not good:
+                            # int(4w + 0.5) is monotone in w: a wider filter that is covered covers this one (widths ordered by the constructor's guard)
+                            good = any(covered(w2, rv)[0] and dom.prove_ge((w2.poly() - wv.poly()), (), extra=inv) for w2 in widths if w2 is not wv)
+                        if not good:
+                            ok = False
+                            det = (f"depth = {d!r} is not >= {need!r}: int(4*sigma + 0.5) is the radius of scipy's Gaussian kernels, ceil(r) the radius of the maxima "
+                                   "search; values and maxima near chunk borders differ from those of the whole image")
+            else:
+                det = f"filter widths {widths!r}, maxima radii {radii!r}, depth {d!r}"[:200]
+        rep.ob("S17", h.anchor, "(d) the overlap depth covers the filter support plus the maxima-search radius (interior of each chunk sees what the whole image sees)",
+               (ok and radius_ok) if ok is not None else None, det, node=h.node, fn=h, clause="halo", stmt=f"{cls} depth")
     h = funcs.get(PB + "BaseTemplateMatcher.get_params_and_depth")
-    if h is not None:
-        dv = [n for n in walk_no_nested(h.node) if isinstance(n, ast.Assign) and norm_src(n.targets[0]) == "depth"]
+    zm = funcs.get(PCC + "ZNCCTemplateMatcher._depth_margin")
+    zp = funcs.get(PCC + "ZNCCTemplateMatcher.pick_in_chunk")
+    if h is not None and zm is not None and zp is not None:
         rep.instance("S17", h.loc())
-        ok = bool(dv) and "np.ceil(np.array(templates[0].shape) / 2)" in norm_src(dv[0].value)
-        # margin for the maxima filter
-        zm = None
-        try:
-            zm = model.func(PCC + "ZNCCTemplateMatcher._depth_margin")
-        except Exception:
-            pass
-        uses = "self._depth_margin(**kwargs)" in norm_src(f.node) and "d + margin" in norm_src(f.node)
-        okm = zm is not None and uses and "np.ceil(min_distance)" in norm_src(zm.node)
-        rep.ob("S17", h.anchor, "(d) template matching: overlap = half the template (valid correlation) plus ceil(min_distance) for the maxima filter", ok and okm,
-               f"half-template depth: {ok}; margin hook used: {uses}; margin covers min_distance: {okm}" +
-               ("" if okm else ": a particle on a chunk border yields spurious border maxima in the neighbouring chunks"), node=h.node, fn=h, clause="halo",
-               stmt="template matcher depth")
+        MH = Matcher(h)
+        ok1, why = MH.all_of(["$d = tuple(np.ceil(np.array($t[0].shape) / 2).astype($$ty))", "return {'templates': $t}, $d"])
+        dom = ArrayDomain(model, nonneg_syms={"min_distance"})
+        out = Interp(model, dom, depth=0).run(zm)
+        ok2 = None
+        det = why
+        if isinstance(out, A) and out.is_poly():
+            goal = dom.add(out, dom.neg(dom.add(dom.opaque("ceil", dom.sym("min_distance")), mkA(1))))
+            ok2 = bool(goal.is_poly() and dom.prove_ge(goal.poly(), ()))
+            if not ok2:
+                det = (f"margin = {out!r} is smaller than ceil(min_distance) + 1: a particle within min_distance of a chunk border yields spurious or missing maxima "
+                       "in the neighbouring chunk")
+        else:
+            det = f"margin evaluates to {out!r}"
+        zmm = Matcher(zp).has("find_maxima($$l, min_distance, min_score)")
+        rep.ob("S17", h.anchor, "(d) template matching: overlap = half the template (no valid correlation closer to the border) plus ceil(min_distance) + 1 for the maxima search",
+               bool(ok1 and ok2 and zmm and radius_ok) if ok2 is not None else None, det, node=h.node, fn=h, clause="halo", stmt="template matcher depth")
     # empty chunks do not break the per-chunk worker
     fm = funcs.get(PCC + "find_maxima")
     if fm is not None:
-        rets = [r for r in walk_no_nested(fm.node) if isinstance(r, ast.Return) and r.value is not None]
         rep.instance("S17", fm.loc())
-        ok = bool(rets) and "reshape(-1" in norm_src(rets[0].value)
-        rep.ob("S17", fm.anchor, "a chunk without maxima yields an empty (0, 3) position array (not a (0,) array)", ok, norm_src(rets[0].value) if rets else "",
-               node=fm.node, fn=fm, clause="halo", stmt="find_maxima empty")
+        M = Matcher(fm)
+        ok = M.has("return np.array($$c, ...).reshape(-1, img.ndim)") or M.has("return np.array($$c, ...).reshape(-1, 3)")
+        rep.ob("S17", fm.anchor, "a chunk without maxima yields an empty (0, ndim) position array (not a (0,) array)", ok, "", node=fm.node, fn=fm, clause="halo",
+               stmt="find_maxima empty")
 
 
 def bank_clause(model, rep, funcs):
     f = funcs.get(PB + "BaseTemplateMatcher.get_params_and_depth")
     if f is not None:
-        dom = FramesDomain(model, field_seeds={("ZNCCTemplateMatcher", "_quaternions"): None})
         rep.instance("F.bank", f.loc())
-        rots = [n for n in walk_no_nested(f.node) if isinstance(n, ast.Assign) and norm_src(n.targets[0]) == "rotators"]
-        ok = len(rots) == 1 and norm_src(rots[0].value) == "[Rotation.from_quat(r).inv() for r in self._quaternions]"
-        cm = [c for c in calls_in(f) if (dotted(c.func) or "").endswith("compose_matrices")]
-        ok2 = len(cm) == 1 and norm_src(cm[0].args[1]) == "rotators" and "/ 2 - 0.5" in norm_src([n for n in walk_no_nested(f.node) if isinstance(n, ast.Assign)
-                                                                                                   and norm_src(n.targets[0]) == "_center"][0].value)
-        loop = [lp for lp in walk_no_nested(f.node) if isinstance(lp, ast.For) and norm_src(lp.iter) == "matrices"]
-        ok3 = len(loop) == 1 and "pool.add_task(template, mtx" in norm_src(loop[0])
+        M = Matcher(f)
+        b: dict = {}
+        ok, why = M.all_of(["$rot = [Rotation.from_quat($r).inv() for $r in self._quaternions]", "$mats = compose_matrices($$c, $rot)",
+                            "for $m in $mats:\n    $pool.add_task($tmpl, $m, ...)", "$out = $pool.compute()", "$ts = [$o * $mask for $o in $out]",
+                            "return {'templates': $ts}, $$d"], b)
+        okc = None
+        if ok:
+            # rotation centre = (n - 1) / 2 of the template
+            dom = C05.mkdom(model)
+            t = C05.syms(dom, "r0", "r1", "r2")
+            cexpr = M.expr(b["c"][1])
+            env = {"np": ExtRef("numpy")}
+            for n in ast.walk(cexpr):
+                if isinstance(n, ast.Name) and n.id != "np":
+                    env[n.id] = Arr(t)
+            v = Interp(model, dom, depth=0).eval(cexpr, env, f)
+            vv = dom.vec(v) if v is not TOP else None
+            if vv and len(vv) == 3:
+                okc = all(vv[i].equals(dom.div(dom.add(t[i], mkA(-1)), mkA(2))) for i in range(3))
+                if not okc:
+                    why = f"templates are rotated about {vv!r}, not about their centre (n - 1) / 2"
         rep.ob("F", f.anchor, "the template bank is rendered with the inverse of each searched rotation, about the template centre, one entry per quaternion in order",
-               ok and ok2 and ok3, norm_src(rots[0].value) if rots else "", node=f.node, fn=f, clause="bank", stmt="picker bank")
+               bool(ok and okc) if (not ok or okc is not None) else None, why, node=f.node, fn=f, clause="bank", stmt="picker bank")
     g = funcs.get(PB + "BaseTemplateMatcher._index_to_quaternions")
     if g is not None:
         rep.instance("F.bank", g.loc())
-        ok = "np.take_along_axis(self._quaternions, argmax_indices[:, np.newaxis], axis=0)" in norm_src(g.node)
+        M = Matcher(g)
+        ok = M.has("return np.take_along_axis(self._quaternions, argmax_indices[:, np.newaxis], axis=0)") or M.has("return self._quaternions[argmax_indices]")
         rep.ob("SAME", g.anchor, "the reported rotation of a pick is self._quaternions[arg-max template index] (same array, same order as the bank)", ok, "",
                node=g.node, fn=g, clause="bank", stmt="_index_to_quaternions")
     h = funcs.get(PCC + "ZNCCTemplateMatcher.pick_in_chunk")
     if h is not None:
-        s = norm_src(h.node)
         rep.instance("F.bank", h.loc())
-        ok = "for template in templates" in s and "np.argmax(all_landscapes, axis=0)" in s and "np.max(all_landscapes, axis=0)" in s and \
-            "self._index_to_quaternions(argmax_indices)" in s
-        rep.ob("SAME", h.anchor, "landscapes are stacked in template order; arg-max over that axis indexes the quaternions", ok, "", node=h.node, fn=h, clause="bank",
-               stmt="ZNCC argmax")
-        # offset (n+1)/2 = start of the [1:-1]-trimmed valid correlation + template centre
-        dom = C05.mkdom(model)
-        it = Interp(model, dom, depth=5)
-        n = C05.syms(dom, "n0", "n1", "n2")
-        t = C05.syms(dom, "r0", "r1", "r2")
-        lf = model.func("acryo/backend/_zncc.py::ncc_landscape_no_pad")
-        out = it.run(lf, args={"img0": Arr(n, lpad=tuple(mkA(0) for _ in n)), "img1": Arr(t), "backend": ExtRef("numpy")})
-        offs = [x for x in walk_no_nested(h.node) if isinstance(x, ast.Assign) and norm_src(x.targets[0]) == "offset"]
-        okc = None
-        det = f"landscape {out!r}"[:200]
-        if isinstance(out, Arr) and out.origin is not None and offs:
-            it2 = Interp(model, dom, depth=0)
-            ov = it2.eval(offs[0].value, {"templates": Tup([Arr(t)]), "np": ExtRef("numpy")}, h)
-            ovv = dom.vec(ov) if ov is not TOP else None
-            if ovv:
-                okc = True
-                for i in range(3):
-                    # landscape index j corresponds to template start j - origin; particle centre = start + (r-1)/2  => centre = j + (-origin + (r-1)/2)
-                    want = dom.add(dom.neg(out.origin[i]), dom.div(dom.add(t[i], mkA(-1)), mkA(2)))
-                    if not ovv[i].equals(want):
-                        okc = False
-                        det = f"axis {i}: offset {ovv[i]!r}, required -origin + (r-1)/2 = {want!r}"
+        M = Matcher(h)
+        b = {}
+        ok, why = M.all_of(["$all = np.stack([ncc_landscape_no_pad(image - np.mean(image), $t - np.mean($t), ...) for $t in templates], axis=0)",
+                            "$arg = np.argmax($all, axis=0)", "$mx = np.max($all, axis=0)", "$pos = find_maxima($mx, min_distance, min_score)",
+                            "$idx = np.array([$arg[tuple(np.round($p).astype($$ty))] for $p in $pos], ...)", "$q = self._index_to_quaternions($idx)",
+                            "return $pos + $$off, $q, $$feat"], b)
+        rep.ob("SAME", h.anchor, "landscapes are stacked in template order; the arg-max over that axis, read at each maximum, indexes the quaternions", ok, why,
+               node=h.node, fn=h, clause="bank", stmt="ZNCC argmax")
+        okc, det = None, why
+        if ok:
+            dom = C05.mkdom(model)
+            it = Interp(model, dom, depth=5)
+            n = C05.syms(dom, "n0", "n1", "n2")
+            t = C05.syms(dom, "r0", "r1", "r2")
+            lf = model.func("acryo/backend/_zncc.py::ncc_landscape_no_pad")
+            out = it.run(lf, args={"img0": Arr(n, lpad=tuple(mkA(0) for _ in n)), "img1": Arr(t), "backend": ExtRef("numpy")})
+            det = f"landscape {out!r}"[:200]
+            if isinstance(out, Arr) and out.origin is not None:
+                ov = Interp(model, dom, depth=0).eval(M.expr(b["off"][1]), {"templates": Tup([Arr(t)]), "np": ExtRef("numpy")}, h)
+                ovv = dom.vec(ov) if ov is not TOP else None
+                if ovv:
+                    okc = True
+                    for i in range(3):
+                        # landscape index j <-> template start j - origin; particle centre = start + (r-1)/2
+                        want = dom.add(dom.neg(out.origin[i]), dom.div(dom.add(t[i], mkA(-1)), mkA(2)))
+                        if not ovv[i].equals(want):
+                            okc = False
+                            det = f"axis {i}: offset {ovv[i]!r}, required -origin + (r-1)/2 = {want!r}"
         rep.ob("A", h.anchor, "position = landscape index + (template size + 1)/2: start of the [1:-1]-trimmed valid correlation plus the template centre", okc, det,
                node=h.node, fn=h, clause="bank", stmt="ZNCC offset")
     k = funcs.get(PB + "MoleculesBox.to_molecules")
     if k is not None:
         rep.instance("F.bank", k.loc())
-        ok = "Molecules.from_quat(self._pos, self._quats, features=self._features)" in norm_src(k.node)
+        ok = Matcher(k).has("return Molecules.from_quat(self._pos, self._quats, features=self._features)")
+        ini = model.func(PB + "MoleculesBox.__init__")
+        ok = ok and Matcher(ini).all_of(["self._pos = pos", "self._quats = quats", "self._features = features"])[0]
         rep.ob("SAME", k.anchor, "positions, quaternions and features of a chunk travel together", ok, "", node=k.node, fn=k, clause="bank", stmt="MoleculesBox")
+    sp = funcs.get(PCC + "simple_pick")
+    if sp is not None:
+        rep.instance("F.bank", sp.loc())
+        ok, why = Matcher(sp).all_of(["$q = np.zeros((pos.shape[0], 4), ...)", "$q[:, 3] = 1.0", "return pos, $q, $$f"])
+        rep.ob("SAME", sp.anchor, "LoG/DoG picks carry the identity rotation, one row per position", ok, why, node=sp.node, fn=sp, clause="bank", stmt="simple_pick")
 
 
 def check(model, rep, tier):
     rep.decided += ["C20 units of sigma/min_distance/positions", "C20 halo discipline of the overlapped block-wise picking (depth forwarded, halo picks discarded, offset, "
-                    "overlap covers filter support + maxima radius, empty chunks)", "C20 template bank / rotation lookup use the same quaternion array in the same order; ZNCC offset identity"]
+                    "clipped depth removed once, overlap covers filter support + maxima radius, empty chunks)",
+                    "C20 template bank / rotation lookup use the same quaternion array in the same order; ZNCC offset identity"]
     rep.not_decided += ["detection quality, thresholds", "sub-pixel position of maxima"]
     funcs = need_funcs(model, rep, ANCHORS)
     units_clause(model, rep, funcs)
     halo_clause(model, rep, funcs)
     bank_clause(model, rep, funcs)
-    rep.floor("U.pick", 4, "(LoG, DoG, ZNCC min_distance, final position)")
-    rep.floor("S17", 5, "(map_overlap site, LoG/DoG/template depth, find_maxima)")
-    rep.floor("F.bank", 4, "(bank, lookup, arg-max, box)")
+    rep.floor("U.pick", 3, "(LoG, DoG, ZNCC min_distance)")
+    rep.floor("S17", 6, "(map_overlap site, maximum_filter, LoG/DoG/template depth, find_maxima)")
+    rep.floor("F.bank", 5, "(bank, lookup, arg-max, box, simple_pick)")
